@@ -1,5 +1,6 @@
 ------------------------------ MODULE MC_auth ------------------------------
 EXTENDS Auth
+CounterTuple(r, c) == <<r, c>>
 AllAccts == {"r1", "r2", "tss", "out"}
 SomeAccts == {"r1", "tss", "out"}
 AllChains == {"one", "two", "tss"}
